@@ -58,6 +58,14 @@ def _run(tier, seed, replay=None):
     if tier != "quick":
         variants["KF_LiveRunnerFailed=FALSE (the open finding is in the spec)"] = variant(
             wd, "wu_nokf.cfg", [("KF_LiveRunnerFailed = TRUE", "KF_LiveRunnerFailed = FALSE"), ("MaxCrashes = 1", "MaxCrashes = 2")], "Durable")
+    # remote units: the submitting node's side at the grain of the two status rewrites of startRemoteUnit
+    rr = vlib.tlc_must_pass("RemoteUnit", "RemoteUnit.cfg", wd, timeout=600)
+    ru_text = open(os.path.join(vlib.SPECS, "RemoteUnit.cfg")).read().replace("RestartIfIdKnown = FALSE", "RestartIfIdKnown = TRUE")
+    rv = vlib.tlc("RemoteUnit", "ru_idknown.cfg", wd, timeout=600, cfg_text=ru_text)
+    if not rv.violated:
+        raise vlib.Inconclusive("RemoteUnit variant RestartIfIdKnown=TRUE did not violate anything (exit %s)" % rv.exit)
+    variants["RemoteUnit RestartIfIdKnown=TRUE (restart resumes a half-finished remote submission)"] = rv.violated
+    vlib.witnesses("RemoteUnit", "RemoteUnit.cfg", ["W_NoStartedAfterCrash", "W_NoIdOnlyRecord"], wd)
     wit = vlib.witnesses("WorkUnit", "WorkUnit_crash.cfg", ["W_NoRecovery", "W_NoSucceeded"], wd)
 
     rec = vlib.build_receptor()
@@ -71,6 +79,8 @@ def _run(tier, seed, replay=None):
             only += "+" + p["second"]
         if p.get("both"):
             only += "+runner-too"
+        if p.get("exec_down"):
+            only += "+executor-down"
         args += ["-only", only]
     elif tier == "quick":
         args += ["-max", "16"]
@@ -111,7 +121,8 @@ def _run(tier, seed, replay=None):
         "points_found_by_dry_runs": ex.get("points_total"), "points_per_workload": ex.get("points_per_workload"),
         "points_selected": ex.get("points_selected"), "crash_windows": ex.get("classes"), "not_reached": ex.get("not_reached"),
         "inconclusive_experiments": res.get("inconclusive") or [],
-        "states": r.distinct, "transitions": r.generated,
+        "states": r.distinct + rr.distinct, "transitions": r.generated + rr.generated,
+        "tlc_remote_unit": {"spec": "RemoteUnit.tla", "cfg": "RemoteUnit.cfg", "generated": rr.generated, "distinct": rr.distinct},
         "tlc": {"spec": "WorkUnit.tla", "cfg": cfg, "generated": r.generated, "distinct": r.distinct, "depth": r.depth, "wall_s": round(r.wall, 1)},
         "variants_violated": variants, "witnesses": wit, "counters": res["counters"],
         "traces_validated_against_impl": ex.get("status_files", 0) if tv.get("status_file_steps", {}).get("accepted") else 0, "crash_trace_validation": tv,
